@@ -435,6 +435,7 @@ func c14Retry(c *Ctx) {
 	// 1. the attempt counter passed to the request is incremented on every cycle
 	att := req.Call.Args[len(req.Call.Args)-1]
 	incOK := false
+	// "attempt++" before the request (the incremented value is passed) ...
 	if bo, ok := att.(*ssa.BinOp); ok && bo.Op == token.ADD {
 		if k, ok := bo.Y.(*ssa.Const); ok && k.Int64() == 1 {
 			if phi, ok := bo.X.(*ssa.Phi); ok {
@@ -442,6 +443,16 @@ func c14Retry(c *Ctx) {
 					if e == ssa.Value(bo) {
 						incOK = true
 					}
+				}
+			}
+		}
+	}
+	// ... or "for attempt := 1; ; attempt++" (the loop variable itself is passed)
+	if phi, ok := att.(*ssa.Phi); ok {
+		for _, e := range phi.Edges {
+			if bo, ok := e.(*ssa.BinOp); ok && bo.Op == token.ADD && bo.X == ssa.Value(phi) {
+				if k, ok := bo.Y.(*ssa.Const); ok && k.Int64() == 1 {
+					incOK = true
 				}
 			}
 		}
@@ -962,9 +973,36 @@ func c14RetryThresholds(c *Ctx) {
 	}
 	c.dumpPartitions()
 	status := "call:(*desync.RemoteHTTPBase).IssueHttpRequest#0"
-	attempt := "phi([1*phi([1*?*ssa.Phi]+1|[]+0)]+1|[]+0)"
+	// the budget comparison, relative to the attempt number handed to the request (whether the
+	// counter is incremented before the request or by the loop): give up iff attempt >= ErrorRetry,
+	// i.e. the split of ErrorRetry - attempt lies at <= 0 | >= 1
+	budgetDone := false
+	for _, call := range calls(fn, named("(*desync.RemoteHTTPBase).IssueHttpRequest")) {
+		a := call.Common().Args
+		att := linearB(a[len(a)-1], 0)
+		nz := nonZero(att.atoms)
+		if !att.ok || len(nz) != 1 || att.atoms[nz[0]] != 1 {
+			continue
+		}
+		counter := nz[0]
+		match := func(atoms map[string]int) int {
+			if len(nonZero(atoms)) != 2 {
+				return 0
+			}
+			s := atoms["StoreOptions.ErrorRetry"]
+			if (s == 1 || s == -1) && atoms[counter] == -s {
+				return s
+			}
+			return 0
+		}
+		// ErrorRetry - attempt = (ErrorRetry - counter) - att.k
+		c.boundaryRuleFn("RemoteHTTPBase.IssueRetryableHttpRequest", "budget", withClosures(fn), match, att.k, 1, "the loop gives up iff attempt >= ErrorRetry (at most max(1, ErrorRetry) requests)")
+		budgetDone = true
+	}
+	if !budgetDone {
+		c.bad("RemoteHTTPBase.IssueRetryableHttpRequest:budget", token.NoPos, "the attempt number handed to the request is not a counter: the budget comparison is not recognised")
+	}
 	c.boundaryRuleSets("RemoteHTTPBase.IssueRetryableHttpRequest", withClosures(fn), []boundarySpec{
-		{"budget", map[string]int{"StoreOptions.ErrorRetry": 1, attempt: -1}, 1, 1, "after the increment the loop gives up iff attempt >= ErrorRetry (at most max(1, ErrorRetry) requests)"},
 		{"5xx", map[string]int{status: 1}, 0, 2, "a status is retried iff 500 <= status < 600"},
 	}, map[string][]int64{"5xx": {499, 599}})
 }
